@@ -423,67 +423,63 @@ Proof.
   exact (G _ _ E _ Hin Hnm).
 Qed.
 
-Lemma walk_deps_DSTEP isd runid f w0 :
-  (forall w1 c1 s v w' c' evs, isd w1 c1 s = Ret (v, w', c', evs) -> DSTEP w1 w') ->
-  forall ds wk c must evs0 v w' c' evs,
-    DSTEP w0 wk ->
-    walk_deps isd runid f (load runid (dbs w0) f) ds wk c must evs0 = Ret (v, w', c', evs) -> DSTEP w0 w'.
-Proof.
-  intros Hisd. set (r := load runid (dbs w0) f).
-  induction ds as [|d ds IHds]; intros wk c must evs0 v w' c' evs Hk H; cbn [walk_deps] in H.
-  - destruct must; [destruct c|]; inversion H; subst; auto.
-    (* the row read at the start is written back with checked_runid set *)
-    destruct Hk as (Fk & Nk & Pk).
-    assert (Hname : r_name (set_checked runid r) = r_name (get_row (dbs wk) f)).
-    { cbn [set_checked upd_row r_name]. unfold r, load. rewrite view_row_name, !name_get_row. now rewrite Nk. }
-    split; [exact Fk|split].
-    + cbn [dbs set_db]. rewrite names_put_row by exact Hname. exact Nk.
-    + intros n Hn0. pose proof (Pk n Hn0) as Hnk.
-      apply (PRES1_put_row_slot n wk f (set_checked runid r) Hname); [|exact Hnk].
-      intros _ j Hj E.
-      assert (Hj0 : find_row (rows (dbs w0)) n 1 = Some j).
-      { rewrite <- Hj. apply find_row_by_names. symmetry. exact Nk. }
-      destruct Hn0 as (_ & _ & Hrow). specialize (Hrow j Hj0).
-      eapply row_protects_keeps; [apply read_stamp_fs; exact Fk| |exact Hrow].
-      unfold r, load, get_row. rewrite E.
-      destruct (keeps_view runid (nth (f - 1) (rows (dbs w0)) (empty_row []))) as (G1 & G2 & G3).
-      repeat split; cbn [set_checked upd_row r_gen r_ovr r_stamp]; assumption.
-  - destruct (d_mode d).
-    + destruct (exists_b wk (r_name (get_row (dbs wk) (d_source d)))).
-      * inversion H; subst. exact Hk.
-      * eapply IHds; [exact Hk|exact H].
-    + destruct (isd wk c (d_source d)) as [[[[v1 w1] c1] e1]|] eqn:E; [|discriminate].
-      pose proof (DSTEP_trans _ _ _ Hk (Hisd _ _ _ _ _ _ _ E)) as Hk1. destruct v1.
-      * eapply IHds; [exact Hk1|exact H].
-      * inversion H; subst. exact Hk1.
-      * eapply IHds; [exact Hk1|exact H].
-      * inversion H; subst. exact Hk1.
-Qed.
-
 Lemma exists_read_stamp w n : exists_b w n = true -> stamp_eqb (read_stamp w n) SMissing = false.
 Proof. unfold exists_b, read_stamp. destruct (fs_get (fs w) n); [reflexivity|discriminate]. Qed.
 
-Lemma is_dirty_DSTEP : forall fuel runid w c f mx seen v w' c' evs,
-  is_dirty fuel runid w c f mx seen = Ret (v, w', c', evs) -> DSTEP w w'.
+(* The row judged by a check is a copy taken at an earlier moment [wl] of the
+   same check (SNAPSHOTS in Model.v); it is written back with checked_runid set
+   whatever has happened to the database row meanwhile. *)
+Lemma DSTEP_writeback runid wl wk f :
+  DSTEP wl wk -> DSTEP wl (set_db wk (put_row (dbs wk) f (set_checked runid (load runid (dbs wl) f)))).
 Proof.
-  induction fuel as [|fuel IH]; intros runid w c f mx seen v w' c' evs H; [discriminate|].
+  intros (Fk & Nk & Pk). set (r := load runid (dbs wl) f).
+  assert (Hname : r_name (set_checked runid r) = r_name (get_row (dbs wk) f)).
+  { cbn [set_checked upd_row r_name]. unfold r, load. rewrite view_row_name, !name_get_row. now rewrite Nk. }
+  split; [exact Fk|split].
+  - cbn [dbs set_db]. rewrite names_put_row by exact Hname. exact Nk.
+  - intros n Hn0. pose proof (Pk n Hn0) as Hnk.
+    apply (PRES1_put_row_slot n wk f (set_checked runid r) Hname); [|exact Hnk].
+    intros _ j Hj E.
+    assert (Hj0 : find_row (rows (dbs wl)) n 1 = Some j).
+    { rewrite <- Hj. apply find_row_by_names. symmetry. exact Nk. }
+    destruct Hn0 as (_ & _ & Hrow). specialize (Hrow j Hj0).
+    eapply row_protects_keeps; [apply read_stamp_fs; exact Fk| |exact Hrow].
+    unfold r, load, get_row. rewrite E.
+    destruct (keeps_view runid (nth (f - 1) (rows (dbs wl)) (empty_row []))) as (G1 & G2 & G3).
+    repeat split; cbn [set_checked upd_row r_gen r_ovr r_stamp]; assumption.
+Qed.
+
+Lemma is_dirty_DSTEP : forall fuel runid wl w c f mx seen v w' c' evs,
+  DSTEP wl w ->
+  is_dirty fuel runid w c f (load runid (dbs wl) f) mx seen = Ret (v, w', c', evs) -> DSTEP wl w'.
+Proof.
+  induction fuel as [|fuel IH]; intros runid wl w c f mx seen v w' c' evs Hl H; [discriminate|].
   cbn [is_dirty] in H.
-  destruct (existsb (Nat.eqb f) seen); [inversion H; subst; apply DSTEP_refl|].
-  set (r := load runid (dbs w) f) in *.
-  destruct (r_failed r); [inversion H; subst; apply DSTEP_refl|].
-  destruct (r_changed r) as [chg|]; [|inversion H; subst; apply DSTEP_refl].
-  destruct (Z.ltb mx chg); [inversion H; subst; apply DSTEP_refl|].
-  destruct (chk_is_checked c runid r f); [inversion H; subst; apply DSTEP_refl|].
-  destruct (r_stamp r) as [old|]; [|inversion H; subst; apply DSTEP_refl].
+  destruct (existsb (Nat.eqb f) seen); [inversion H; subst; exact Hl|].
+  set (r := load runid (dbs wl) f) in *.
+  destruct (r_failed r); [inversion H; subst; exact Hl|].
+  destruct (r_changed r) as [chg|]; [|inversion H; subst; exact Hl].
+  destruct (Z.ltb mx chg); [inversion H; subst; exact Hl|].
+  destruct (chk_is_checked c runid r f); [inversion H; subst; exact Hl|].
+  destruct (r_stamp r) as [old|]; [|inversion H; subst; exact Hl].
   destruct (negb (stamp_eqb old (read_stamp w (r_name r)))).
   { inversion H; subst. unfold forget_missing.
-    destruct (read_stamp w (r_name r)) eqn:Ers; [|apply DSTEP_refl].
-    destruct (r_gen r); [|apply DSTEP_refl].
-    apply DSTEP_put_row.
-    - cbn [upd_row r_name]. unfold r, load. now rewrite view_row_name.
+    destruct (read_stamp w (r_name r)) eqn:Ers; [|exact Hl].
+    destruct (r_gen r); [|exact Hl].
+    eapply DSTEP_trans; [exact Hl|]. apply DSTEP_put_row.
+    - cbn [upd_row r_name]. unfold r, load. rewrite view_row_name, !name_get_row. destruct Hl as (_ & Nn & _). now rewrite Nn.
     - intros n _ _. apply row_protects_safe. left. reflexivity. }
-  eapply walk_deps_DSTEP; [|apply DSTEP_refl|exact H].
-  intros w1 c1 s v1 w1' c1' evs1 E. eapply IH; exact E.
+  (* the walk: sub-checks judge copies taken now (at w); the write-back uses the copy taken at wl *)
+  eapply (walk_deps_inv2 (fun wk => DSTEP wl wk /\ DSTEP w wk) (fun wk => DSTEP wl wk)
+                         (fun d rs => rs = load runid (dbs w) (d_source d)));
+    [| | | |split; [exact Hl|apply DSTEP_refl]|exact H].
+  - intros w1 c1 d rs v1 w1' c1' e1 -> [Hl1 Hw1] E.
+    pose proof (IH _ _ _ _ _ _ _ _ _ _ _ Hw1 E) as Hw1'. split; [|exact Hw1'].
+    (* from wl: through w *)
+    eapply DSTEP_trans; [exact Hl|exact Hw1'].
+  - intros w1 [Hl1 _]. exact Hl1.
+  - intros w1 [Hl1 _]. apply DSTEP_writeback. exact Hl1.
+  - eapply Forall_impl; [|apply deps_rows_loaded]. cbn. intros x [_ Hx]. exact Hx.
 Qed.
 
 (* ================================================================ from_name and the script commands *)
@@ -933,8 +929,8 @@ Proof.
   destruct m.
   - eapply start_self_STEP; eauto.
   - destruct (is_failed (e_runid e) (load (e_runid e) (dbs w0) f)); [inversion H; subst; apply STEP_refl|].
-    destruct (is_dirty fuel (e_runid e) w0 ChkDb f (e_runid e) []) as [[[[v wd] cd] evd]|] eqn:Ed; [|discriminate].
-    pose proof (is_dirty_DSTEP _ _ _ _ _ _ _ _ _ _ _ Ed) as Dd.
+    destruct (is_dirty fuel (e_runid e) w0 ChkDb f (load (e_runid e) (dbs w0) f) (e_runid e) []) as [[[[v wd] cd] evd]|] eqn:Ed; [|discriminate].
+    pose proof (is_dirty_DSTEP _ _ _ _ _ _ _ _ _ _ _ _ (DSTEP_refl w0) Ed) as Dd.
     apply (STEP_trans w0 wd); [now apply DSTEP_STEP|].
     assert (Hfd : find_row (rows (dbs wd)) t 1 = Some f).
     { rewrite <- Hf0. apply find_row_by_names. exact (proj1 (proj2 Dd)). }
